@@ -239,6 +239,9 @@ func TestC23Post(t *testing.T) {
 	if err := json.Unmarshal(fb, &f); err != nil {
 		t.Fatalf("facts unreadable: %v", err)
 	}
+	if msg := parserSelfCheck(); msg != "" {
+		t.Fatalf("strace parser self-check failed: %s", msg)
+	}
 	r := mon.Start(t, "C23")
 	defer r.Finish()
 	r.Rule("case = one request (target, Host, Accept-Encoding, Range, method) driven straight into a handler of one of " +
@@ -248,6 +251,7 @@ func TestC23Post(t *testing.T) {
 	r.Assume("lexical containment only, as the property states: the syscall monitor judges path strings as handed to the kernel (cleaned with path.Clean, relative ones resolved against the recorded cwd); symlinks inside a root are outside the property")
 	r.Assume("handlers are driven directly with RequestCtx.Init (no sockets): targets the server itself rejects before calling a handler (unparsable URI, e.g. raw control bytes) reach the handler as path \"/\" and are only judged by the syscall/canary/open-name monitors")
 	r.Assume("strace reports every %file syscall of every thread; completeness is cross-checked by the per-case sentinels (all must be present, in order)")
+	r.Assume("paths longer than 4096 bytes are cut by strace (-s 4096); they exceed PATH_MAX, so the kernel refuses them without a lookup; only their visible complete segments are judged (syscall_paths_truncated_by_strace)")
 	r.Assume("CompressRoot exists before the first request except in one configuration, where stat calls on its ancestors made by os.MkdirAll are counted (skipped_mkdirall_ancestor_stat), not judged")
 	r.Assume("for fs.FS configurations with a non-empty Root, names outside Root but inside the fs.FS are judged as escapes; names a conforming fs.FS refuses anyway (\"\", trailing slash) are only counted")
 
@@ -386,7 +390,13 @@ func TestC23Post(t *testing.T) {
 			r.Event("syscall_paths_judged", 1)
 			raw := pa.s
 			if pa.truncated {
+				// longer than strace's -s 4096, hence longer than PATH_MAX: the kernel
+				// refuses it (ENAMETOOLONG) before any lookup. Judge the complete
+				// segments that are visible; the last one may be cut in the middle.
 				r.Event("syscall_paths_truncated_by_strace", 1)
+				if k := strings.LastIndexByte(raw, '/'); k > 0 {
+					raw = raw[:k]
+				}
 			}
 			abs := raw
 			if !strings.HasPrefix(raw, "/") {
@@ -505,3 +515,57 @@ func rootOf(c *config) string {
 // phase. None of them can be chosen by a request. (Empty: everything lazy is
 // warmed up before the begin sentinel.)
 var runtimeAllow = map[string]struct{}{}
+
+// parserSelfCheck runs the log parser over lines of known meaning.
+func parserSelfCheck() string {
+	type want struct {
+		line  string
+		ok    bool
+		name  string
+		paths []string
+		trunc bool
+	}
+	cases := []want{
+		{`123 openat(AT_FDCWD, "/a/b", O_RDONLY|O_CLOEXEC) = 3`, true, "openat", []string{"/a/b"}, false},
+		{`123 openat(AT_FDCWD, "/a/\303\251\1x\"q\\z\n", O_RDONLY|O_CLOEXEC) = -1 ENOENT (No such file or directory)`, true, "openat", []string{"/a/\xc3\xa9\x01x\"q\\z\n"}, false},
+		{`9 newfstatat(AT_FDCWD, "/r/x, y) = 0", <unfinished ...>`, true, "newfstatat", []string{"/r/x, y) = 0"}, false},
+		{`9 <... newfstatat resumed>{st_mode=S_IFREG|0644, st_size=5, ...}, 0) = 0`, false, "", nil, false},
+		{`9 --- SIGURG {si_signo=SIGURG, si_code=SI_TKILL, si_pid=1, si_uid=0} ---`, false, "", nil, false},
+		{`9 +++ exited with 0 +++`, false, "", nil, false},
+		{`7 renameat(AT_FDCWD, "/r/a.tmp-1", AT_FDCWD, "/r/a.gz") = 0`, true, "renameat", []string{"/r/a.tmp-1", "/r/a.gz"}, false},
+		{`7 newfstatat(AT_FDCWD, "/r/aaaa"..., 0xc000, 0) = -1 ENAMETOOLONG (File name too long)`, true, "newfstatat", []string{"/r/aaaa"}, true},
+		{`7 utimensat(AT_FDCWD, "/r/t", [{tv_sec=1, tv_nsec=2} /* 1970 */, {tv_sec=3, tv_nsec=4}], 0) = 0`, true, "utimensat", []string{"/r/t"}, false},
+		{`7 unlinkat(AT_FDCWD, "rel/p", 0) = 0`, true, "unlinkat", []string{"rel/p"}, false},
+		{`7 execve("/bin/x", ["x", "-a"], 0x7ffc /* 3 vars */) = 0`, true, "execve", []string{"/bin/x"}, false},
+	}
+	for _, w := range cases {
+		sl, ok := parseLine(w.line)
+		if ok != w.ok {
+			return fmt.Sprintf("%q: ok=%v", w.line, ok)
+		}
+		if !ok {
+			continue
+		}
+		if sl.name != w.name {
+			return fmt.Sprintf("%q: name %q", w.line, sl.name)
+		}
+		var got []string
+		tr := false
+		for _, pr := range pathArgs[sl.name] {
+			if pr[1] < len(sl.args) && sl.args[pr[1]].quoted {
+				got = append(got, sl.args[pr[1]].s)
+				tr = tr || sl.args[pr[1]].truncated
+			}
+		}
+		if strings.Join(got, "|") != strings.Join(w.paths, "|") || tr != w.trunc {
+			return fmt.Sprintf("%q: paths %q truncated=%v", w.line, got, tr)
+		}
+	}
+	return ""
+}
+
+func TestC23ParserSelfCheck(t *testing.T) {
+	if msg := parserSelfCheck(); msg != "" {
+		t.Fatal(msg)
+	}
+}
